@@ -17,7 +17,7 @@ def aff_vars(av):
 
 def space_vars(e):
     k = e["k"]
-    if k in ("interval", "point", "par", "tri", "circle", "sphere"):
+    if k in ("interval", "point", "par", "tri", "circle", "sphere", "poly", "mesh"):
         return [e["v"]]
     if k in ("union", "cut", "and"):
         return space_vars(e["l"])
@@ -36,6 +36,8 @@ def free_vars(e):
         return set(aff_vars(e["o"] + e["a"] + e["b"]))
     if k in ("circle", "sphere"):
         return set(aff_vars(e["c"] + [e["r"]]))
+    if k in ("poly", "mesh"):
+        return set()
     if k in ("union", "cut", "and"):
         return free_vars(e["l"]) | free_vars(e["r"])
     if k == "prod":
@@ -43,7 +45,7 @@ def free_vars(e):
     if k == "trans":
         return free_vars(e["d"]) | set(aff_vars(e["t"]))
     if k == "rot":
-        return free_vars(e["d"]) | set(aff_vars(e["p"]))
+        return free_vars(e["d"]) | set(aff_vars(e["p"])) | ({e["an"]} if e.get("m") == "quarter" else set())
     return free_vars(e["d"])
 
 
